@@ -1,7 +1,8 @@
 #!/bin/bash
-# runs every claimed check once (tier from $1, default quick) and prints one line per property
-cd /verif; T=${1:-quick}
-for p in $(python3 -c "import json; print(' '.join(c['property_id'] for c in json.load(open('MANIFEST.json'))['checks']))"); do
+# runs every claimed check once (tier from $1, default quick; optional list of property ids after it) and prints one line per property
+cd /verif; T=${1:-quick}; shift
+P="$@"; [ -z "$P" ] && P=$(python3 -c "import json; print(' '.join(c['property_id'] for c in json.load(open('MANIFEST.json'))['checks']))")
+for p in $P; do
   s=$(date +%s); ./check $p --tier $T > /tmp/runall-$T-$p.log 2>&1; rc=$?; e=$(date +%s)
   echo "$p rc=$rc $((e-s))s $(tail -1 /tmp/runall-$T-$p.log | cut -c1-150)"
 done
